@@ -65,8 +65,19 @@ func c17Menu(w *wworld.World) []string {
 
 func c17Specs(quick bool) []*wSpec {
 	two := wworld.Config{FeeA: 100, Wallets: []wworld.WalletCfg{{Default: "a"}, {Default: "a"}}}
+	swapCfg := wworld.Config{FeeA: 100, FeeB: 0, TwoMints: true, Wallets: []wworld.WalletCfg{{Default: "a"}}}
+	swapMenu := func(w *wworld.World) []string {
+		ops := []string{"reclaim|0", "rmspent|0", "reload|0"}
+		if w.Wallets[0].W.GetBalance() >= 10 {
+			ops = append(ops, "mintswap|0|8|a|b|S", "mintswap|0|8|a|b|F")
+		}
+		return ops
+	}
 	if quick {
-		return []*wSpec{{Prop: "C17", Name: "C17-2w1m-fee100-q", Cfg: two, Init: []string{"mint|0|16"}, Menu: c17Menu, Depth: 3}}
+		return []*wSpec{
+			{Prop: "C17", Name: "C17-2w1m-fee100-q", Cfg: two, Init: []string{"mint|0|16"}, Menu: c17Menu, Depth: 3},
+			{Prop: "C17", Name: "C17-mintswap-q", Cfg: swapCfg, Init: []string{"mint|0|16", "addmint|0|b"}, Menu: swapMenu, Depth: 2},
+		}
 	}
 	three := func(fa uint) wworld.Config {
 		return wworld.Config{FeeA: fa, FeeB: 0, TwoMints: true, Wallets: []wworld.WalletCfg{{Default: "a"}, {Default: "a"}, {Default: "b"}}}
